@@ -4,6 +4,7 @@
 -/
 import ChessVerif.Lemmas.Ranges
 import ChessVerif.Lemmas.Refine
+import ChessVerif.Lemmas.Attack
 import ChessVerif.Model.Movegen
 namespace Chess
 
@@ -41,15 +42,57 @@ instance (p : Position) : Decidable (Ranges p) :=
   decidable_of_iff (p.castling < 16 ∧ p.ep < 65 ∧ p.halfmove < 256 ∧ p.side ≤ 1)
     ⟨fun ⟨a, b, c, d⟩ => ⟨a, b, c, d⟩, fun h => ⟨h.castling, h.ep, h.halfmove, h.side⟩⟩
 
-/-- evaluated by the driver at every state line: ranges and ply parity hold and EVERY generated move satisfies UndoOK -/
+/-- board shape the bitboard view needs: 64 squares, codes 0..12 -/
+def boardHypb (b : List Nat) : Bool := decide (b.length = 64) && b.all (fun x => decide (x ≤ 12))
+
+theorem boardHypb_sound (b : List Nat) (h : boardHypb b = true) : BoardOK b := by
+  unfold boardHypb at h
+  simp only [Bool.and_eq_true, decide_eq_true_eq, List.all_eq_true] at h
+  refine ⟨h.1, ?_⟩
+  intro s
+  by_cases hs : s < b.length
+  · have : b.getD s 0 = b[s] := by simp [List.getD, hs]
+    rw [this]; exact h.2 _ (List.getElem_mem hs)
+  · have : b.getD s 0 = 0 := by
+      rw [List.getD_eq_getElem?_getD, List.getElem?_eq_none (by omega)]; rfl
+    rw [this]; omega
+
+/-- exactly one king of colour c (on the square the engine's king lookup returns), no enemy king beside it -/
+def kingHypb (b : List Nat) (c : Nat) : Bool :=
+  decide (kingSq b c < 64) && decide (b.getD (kingSq b c) 0 = mkPiece c KING) &&
+  (List.range 64).all (fun s => decide (b.getD s 0 = mkPiece c KING → s = kingSq b c)) &&
+  !kingNear b (kingSq b c) (1 - c)
+
+theorem kingHypb_sound (b : List Nat) (c : Nat) (h : kingHypb b c = true) :
+    KingAt b c (kingSq b c) ∧ kingNear b (kingSq b c) (1 - c) = false := by
+  unfold kingHypb at h
+  simp only [Bool.and_eq_true, decide_eq_true_eq, List.all_eq_true, List.mem_range, Bool.not_eq_true'] at h
+  exact ⟨⟨h.1.1.1, h.1.1.2, fun s hs => h.1.2 s hs⟩, h.2⟩
+
+/-- evaluated by the driver at every state line: ranges and ply parity hold, EVERY generated move satisfies UndoOK, the
+    board has the shape the bitboard lemmas assume and each side has exactly one king with no enemy king beside it -/
 def hypothesesHold (p : Position) : Bool :=
-  decide (Ranges p) && decide (PlyOK p) && (genMoves p).all (fun m => decide (UndoOK p m))
+  decide (Ranges p) && decide (PlyOK p) && (genMoves p).all (fun m => decide (UndoOK p m)) &&
+  boardHypb p.board && kingHypb p.board 0 && kingHypb p.board 1
 
 theorem hypothesesHold_sound (p : Position) (h : hypothesesHold p = true) :
-    Ranges p ∧ PlyOK p ∧ ∀ m ∈ genMoves p, UndoOK p m := by
+    Ranges p ∧ PlyOK p ∧ (∀ m ∈ genMoves p, UndoOK p m) ∧ BoardOK p.board ∧
+    (∀ c, c ≤ 1 → KingAt p.board c (kingSq p.board c) ∧ kingNear p.board (kingSq p.board c) (1 - c) = false) := by
   unfold hypothesesHold at h
   simp only [Bool.and_eq_true, decide_eq_true_eq, List.all_eq_true] at h
-  exact ⟨h.1.1, h.1.2, h.2⟩
+  obtain ⟨⟨⟨⟨⟨h1, h2⟩, h3⟩, h4⟩, h5⟩, h6⟩ := h
+  refine ⟨h1, h2, h3, boardHypb_sound _ h4, ?_⟩
+  intro c hc
+  have : c = 0 ∨ c = 1 := by omega
+  rcases this with rfl | rfl
+  · exact kingHypb_sound _ 0 h5
+  · exact kingHypb_sound _ 1 h6
+
+/-- so wherever the driver printed `sync=ok`, the engine-side check test is the rules' check test -/
+theorem check_eq_of_hypotheses (p : Position) (h : hypothesesHold p = true) (side : Nat) (hs : side ≤ 1) :
+    isInCheck p side = Spec.inCheck p.board side := by
+  obtain ⟨_, _, _, hb, hk⟩ := hypothesesHold_sound p h
+  exact isInCheck_eq p side _ hs hb (hk side hs).1 (hk side hs).2
 
 set_option synthInstance.maxSize 4096 in
 set_option synthInstance.maxHeartbeats 400000 in
